@@ -410,6 +410,17 @@ impl<CharIter: Iterator<Item = char>> Lexer<CharIter> {
         }
     }
 
+    // a digit string that does not denote a representable number is a syntax error
+    fn parse_number_literal<T: std::str::FromStr>(&self, literal: &str) -> Result<T> {
+        literal.parse::<T>().map_err(|_| {
+            ErrorData::from(SyntaxError::Extension(format!(
+                "invalid or out of range number literal {}",
+                literal
+            )))
+            .locate(Some(self.location))
+        })
+    }
+
     fn number(&mut self) -> Result<Option<TokenData>> {
         match self.current.take() {
             Some(c) => {
@@ -422,12 +433,14 @@ impl<CharIter: Iterator<Item = char>> Lexer<CharIter> {
                             '0'..='9' => self.digital10(&mut number_literal)?,
                             'e' => {
                                 self.number_suffix(&mut number_literal)?;
+                                self.parse_number_literal::<f64>(&number_literal)?;
                                 break Ok(Some(TokenData::Primitive(Primitive::Real(
                                     number_literal,
                                 ))));
                             }
                             '.' => {
                                 self.real(&mut number_literal)?;
+                                self.parse_number_literal::<f64>(&number_literal)?;
                                 break Ok(Some(TokenData::Primitive(Primitive::Real(
                                     number_literal,
                                 ))));
@@ -437,8 +450,8 @@ impl<CharIter: Iterator<Item = char>> Lexer<CharIter> {
                                 self.advance(1);
                                 self.digital10(&mut denominator)?;
                                 break Ok(Some(TokenData::Primitive(Primitive::Rational(
-                                    number_literal.parse::<i32>().unwrap(),
-                                    match denominator.parse::<u32>().unwrap() {
+                                    self.parse_number_literal::<i32>(&number_literal)?,
+                                    match self.parse_number_literal::<u32>(&denominator)? {
                                         0 => {
                                             return located_error!(
                                                 SyntaxError::RationalDivideByZero,
@@ -452,13 +465,13 @@ impl<CharIter: Iterator<Item = char>> Lexer<CharIter> {
                             _ => {
                                 Self::test_delimiter(Some(self.location), *nc)?;
                                 break Ok(Some(TokenData::Primitive(Primitive::Integer(
-                                    number_literal.parse::<i32>().unwrap(),
+                                    self.parse_number_literal::<i32>(&number_literal)?,
                                 ))));
                             }
                         },
                         None => {
                             break Ok(Some(TokenData::Primitive(Primitive::Integer(
-                                number_literal.parse::<i32>().unwrap(),
+                                self.parse_number_literal::<i32>(&number_literal)?,
                             ))))
                         }
                     }
